@@ -79,7 +79,88 @@ fn is_set_or_pragma(plan: &RecExpr) -> bool {
     matches!(plan.as_ref().last(), Some(Expr::Pragma(_)) | Some(Expr::Set(_)))
 }
 
+const ALL_LISTS: &[&str] = &[
+    "expr::rules", "expr::and_rules", "plan::always_better_rules", "plan::subquery_rules",
+    "plan::predicate_pushdown_rules", "plan::projection_pushdown_rules", "plan::index_scan_rules",
+    "plan::join_reorder_rules", "plan::hash_join_rules", "order::order_rules", "range::filter_scan_rule",
+];
+
+/// Executes a plan given as an s-expression, as it is.  With `"equiv": {"rhs": plan, "rules":
+/// [names]}` it also saturates an e-graph holding both plans with exactly the named rules and
+/// reports whether egg puts them in one e-class (i.e. the rule really rewrites one into the other).
+/// Plan text does not carry schema ids (`$0.1` parses as schema 0 = the system schema): move
+/// every table / column reference to the default user schema (id 1), where generated tables live.
+fn to_user_schema(e: &RecExpr) -> RecExpr {
+    let mut out = RecExpr::default();
+    for n in e.as_ref() {
+        let n2 = match n.clone() {
+            Expr::Column(mut c) => {
+                c.schema_id = 1;
+                Expr::Column(c)
+            }
+            Expr::Table(mut t) => {
+                t.schema_id = 1;
+                Expr::Table(t)
+            }
+            other => other,
+        };
+        out.add(n2);
+    }
+    out
+}
+
+fn run_plan(rt: &tokio::runtime::Runtime, db: &Database, q: &Value) -> Value {
+    let mut out = json!({});
+    let text = q["plan"].as_str().unwrap_or("");
+    let r = catch(|| -> Result<Vec<Vec<String>>, String> {
+        let plan: RecExpr = text.parse().map_err(|e| format!("plan parse: {e:?}"))?;
+        let plan = to_user_schema(&plan);
+        if let Some(eq) = q.get("equiv") {
+            let rhs: RecExpr = eq["rhs"].as_str().unwrap_or("").parse().map_err(|e| format!("rhs parse: {e:?}"))?;
+            let rhs = to_user_schema(&rhs);
+            let names: HashSet<String> = eq["rules"].as_array().map(|a| a.iter().filter_map(|x| x.as_str().map(String::from)).collect()).unwrap_or_default();
+            let mut rules: Vec<pv::Rewrite> = vec![];
+            for l in ALL_LISTS {
+                for r in rule_list(l).unwrap() {
+                    if names.contains(r.name.as_str()) && !rules.iter().any(|x| x.name == r.name) {
+                        rules.push(r);
+                    }
+                }
+            }
+            let o = rt.block_on(db.verif_optimizer()).map_err(|e| e.to_string())?;
+            let runner = egg::Runner::<_, _, ()>::new(o.verif_analysis())
+                .with_expr(&plan)
+                .with_expr(&rhs)
+                .with_iter_limit(4)
+                .run(rules.iter());
+            let same = runner.egraph.find(runner.roots[0]) == runner.egraph.find(runner.roots[1]);
+            out["equiv"] = json!(same);
+            out["rules_found"] = json!(rules.len());
+        }
+        let chunks = rt.block_on(db.verif_run_plan(&plan)).map_err(|e| e.to_string())?;
+        Ok(canon_rows_of(&chunks))
+    });
+    match r {
+        Ok(Ok(rows)) => {
+            out["class"] = json!("ok");
+            out["rows"] = json!(rows);
+        }
+        Ok(Err(e)) => {
+            out["class"] = json!("err");
+            out["msg"] = json!(e.chars().take(300).collect::<String>());
+        }
+        Err(p) => {
+            out["class"] = json!("panic");
+            out["msg"] = json!(p.chars().take(300).collect::<String>());
+        }
+    }
+    out
+}
+
 fn run_query(rt: &tokio::runtime::Runtime, db: &Database, q: &Value, stages: &Value) -> Value {
+    if q.get("plan").is_some() {
+        return run_plan(rt, db, q);
+    }
     let sql = q["sql"].as_str().unwrap_or("");
     let opt = q["opt"].as_str().unwrap_or("on");
     let want_plans = q["plans"].as_bool().unwrap_or(false);
